@@ -45,7 +45,8 @@ def run(ctx):
             return "Lengths %s" % ("equal rejected" if bad.get("lv") == bad.get("lr") else "mismatch accepted or silent")
         return str(e)
 
-    n_ok = ctx.validate_all("Trace_GL", trace, key_of, group_start="__each__", max_rejections=10, rest_cfg="Trace_GL_rest.cfg",
+    # a recorder that died leaves a truncated trace: the completeness invariant does not apply to it
+    n_ok = ctx.validate_all("Trace_GL", trace, key_of, cfg="Trace_GL_rest.cfg" if d else None, group_start="__each__", max_rejections=10, rest_cfg="Trace_GL_rest.cfg",
                             what_of=lambda ex, bad: "rule rejected by spec/Trace_GL.tla: %s" % json.dumps(bad)[:400])
     lines = open(trace).read().splitlines()
     ctx.sample({"trace_event": json.loads(lines[2])})
